@@ -136,7 +136,7 @@ func c05Mutations(kind string) []string {
 	case "logic":
 		return append(common, "contract", "payload", "fee0", "fee1", "fee2", "sender", "senderHead", "senderTruncate", "id", "deadline")
 	case "valset":
-		return append(common, "valAddr", "valPower", "valsetID", "valAdd", "valDrop", "valSwap", "gas")
+		return append(common, "valAddr", "valPower", "valsetID", "valAdd", "valDrop", "valSwap", "valPairSwap", "valRotate", "gas")
 	case "deploy":
 		return append(common, "deployer", "bytecode", "fee0", "fee1", "fee2", "sender", "senderHead", "senderTruncate", "id", "deadline")
 	case "handover":
@@ -196,6 +196,22 @@ func c05Mutate(t *rapid.T, s *c05Spec, op string) {
 	case "valSwap":
 		if len(s.vals) > 1 {
 			s.vals[0], s.vals[1] = s.vals[1], s.vals[0]
+		}
+	case "valPairSwap":
+		// two members change places, each keeping its power: the same set, delivered in another order
+		if len(s.vals) > 1 {
+			i := rapid.IntRange(0, len(s.vals)-1).Draw(t, "i")
+			j := rapid.IntRange(0, len(s.vals)-2).Draw(t, "j")
+			if j >= i {
+				j++
+			}
+			s.vals[i], s.vals[j] = s.vals[j], s.vals[i]
+			s.powers[i], s.powers[j] = s.powers[j], s.powers[i]
+		}
+	case "valRotate":
+		if len(s.vals) > 1 {
+			s.vals = append(s.vals[1:], s.vals[0])
+			s.powers = append(s.powers[1:], s.powers[0])
 		}
 	case "bytecode":
 		s.bytecode = c05Bytes(t, "m.bytecode", 70)
